@@ -28,6 +28,8 @@ class C06(Check):
         fmt = rng.choice(FMTS + ["x"])
         shared = rng.random() < 0.8
         kind_mem = "hash" if (shared and rng.random() < 0.3) else "array"
+        if shared and kind_mem == "array" and rng.random() < 0.25:
+            kind_mem = "percpu"         # a variable of a per-CPU array map: instances on one CPU preempt each other
         if shared and kind_mem == "array" and rng.random() < 0.3:
             kind_mem = "ptr"            # the array-map variable through a pointer register: e.mI[e.r9 + offset] += amount
         k = rng.choice([2, 2, 3]) if shared else 1
@@ -63,7 +65,7 @@ class C06(Check):
     def decls(self, case):
         if case.get("mem") == "hash":
             return [("v", "hash", case["fmt"]), ("o", "local", case["ofmt"])]
-        st = "array" if case["shared"] else "local"
+        st = ("percpu" if case.get("mem") == "percpu" else "array") if case["shared"] else "local"
         return [("n0", st, "I"), ("v", st, case["fmt"]), ("n1", st, "I"), ("o", "local", case["ofmt"])]
 
     def prepare(self, cases):
@@ -197,7 +199,7 @@ class C06(Check):
         return [isa_check.check(self.seed + 3, 40 if self.tier == "quick" else 300), hash_check.check(self.seed + 7, 40 if self.tier == "quick" else 300)]
 
     def rule(self):
-        return ("v += / -= amount on an i/I/q/Q/x variable of a shared array map (directly, or through a pointer register r6/r8/r9: e.mI[e.r9 + offset] += amount) or hash map between two 4-byte neighbours (80%; else a local, single instance), amount = constant "
+        return ("v += / -= amount on an i/I/q/Q/x variable of a shared array map (directly, or through a pointer register r6/r8/r9: e.mI[e.r9 + offset] += amount) or hash map or per-CPU array map (instances preempting each other on one CPU) between two 4-byte neighbours (80%; else a local, single instance), amount = constant "
                 "(small, 2**31, 2**32+5, negative) / r or sr register / expression over the register, a private local and constants; 2-3 instances with different "
                 "register values; schedules: round robin, sequential both ways, four adversarial ones (everybody up to 2..5 instructions before its end, then round "
                 "robin), 4 (thorough 12) random shuffles")
